@@ -339,13 +339,16 @@ func unmarshalUnit(prog *Program, ms *MsgSchema, o unmarshalOpts) (u *Unit) {
 			}
 			k++
 			goal := "true"
-			if s.Prov == "input" || s.Prov == "mixed" {
+			if rp := c.resolveProv(s.Prov); rp == "input" || rp == "mixed" {
 				goal = "false"
 			}
 			fname := s.Key[strings.Index(s.Key, ".")+1:]
 			c.addObl(Obl{Name: fmt.Sprintf("%s/%s/provenance#%d", u.Name, fname, k), Kind: "provenance", Guard: s.Guard, Goal: goal, Pos: s.Pos, Text: "value stored into the message does not share memory with input.Buf (provenance " + s.Prov + ")"})
 		}
 		for i, s := range c.aliasStores {
+			if rp := c.resolveProv(s.Prov); rp != "input" && rp != "mixed" {
+				continue
+			}
 			c.addObl(Obl{Name: fmt.Sprintf("%s/provenance[element]#%d", u.Name, i+1), Kind: "provenance", Guard: s.Guard, Goal: "false", Pos: s.Pos, Text: "element/key/value stored into a container of the message aliases input.Buf"})
 		}
 	}
